@@ -16,6 +16,8 @@ Leg S2C : every TLC state (dump) is loaded into a REAL InMemoryMetricsStore thro
           to_externalizable(clear=True) -> bulk_add from a second store, then calculate_results.
           A few races with non-ASCII task names / user tags are read back by a child interpreter whose preferred
           encoding is not UTF-8 (LC_ALL=C, no coercion, no UTF-8 mode).
+          Query leg: a part of the cases runs the real calculator on a real EsMetricsStore whose search requests a fake
+          client (harness/esquery.py) evaluates against the same documents.
 Leg C2S : the recorded (store, results, normal-only results, reloaded results) of the S2C runs and of seeded random
           stores (wider values, more tasks, bigger bags) are validated by TLC against TraceStats.tla:
           L1 = clauses of C08, L2 = equality with the transcription.
@@ -30,7 +32,7 @@ import subprocess
 import sys
 from fractions import Fraction
 
-from .. import tlc, tracecheck
+from .. import esquery, tlc, tracecheck
 from ..core import Violation
 from ..tlaparse import parse_value, to_json
 
@@ -223,6 +225,8 @@ class Impl:
         if type(self.race_store).__name__ != "FileRaceStore":
             raise tlc.MachineryError("expected a FileRaceStore, got %r" % type(self.race_store))
         self._tracks = {}
+        self.searches = 0  # search requests the EsMetricsStore cases sent
+        self._fakes = []
         # a second, older race without results in the same directory: list() has to pick the right one
         other_cfg = config.Config()
         for sec, key, val in (
@@ -343,6 +347,15 @@ class Impl:
             store.flush()
         return store
 
+    def es_store(self, docs):
+        """A real EsMetricsStore (opened for reading) over a fake search client that evaluates the store's requests against docs."""
+        fake = esquery.FakeSearchEs(docs)
+        client_factory, template_provider = esquery.factories(fake)
+        st = self.metrics.EsMetricsStore(self.cfg, client_factory_class=client_factory, index_template_provider_class=template_provider)
+        st.open(RACE_ID, datetime.datetime(2020, 1, 2, 3, 4, 5), "verif-track", "verif-challenge", ["defaults"], create=False)
+        self._fakes.append(fake)
+        return st
+
     def add_telemetry(self, store, k):
         """Every other system metric GlobalStatsCalculator gathers (not described by the model): they take part in the
         == comparison of original and reloaded results only. k varies the values (0 included)."""
@@ -430,6 +443,11 @@ class Impl:
         store = self.load_store(S, item["u"], ot, rnd, opn=opn, ho=ho, sched=sched, names=tn)
         if item.get("tele") is not None:
             self.add_telemetry(store, item["tele"])
+        es = bool(item.get("es"))
+        if es:
+            # query leg: the same documents behind the Elasticsearch metrics store (what race control uses with datastore.type =
+            # elasticsearch); its searches are evaluated against exactly these documents by harness/esquery.py
+            store = self.es_store(store.docs)
         race_id = "c08-uni-%d" % item["uni"] if uni else RACE_ID
         race = self.new_race(t, ch, race_id=race_id, tags=UNI_TAGS if uni else None)
         try:
@@ -457,12 +475,16 @@ class Impl:
             item["RL"], item["RS"], item["diff"] = self.persist_and_reload(race, res, sched, u)
         if any(not r[3] for r in S["recs"]):
             store_n = self.load_store(S, item["u"], ot, rnd, normal_only=True, opn=opn, ho=ho, sched=sched, names=tn)
+            if es:
+                store_n = self.es_store(store_n.docs)
             res_n = self.metrics.calculate_results(store_n, self.new_race(t, ch))
             item["RN"] = self.project(res_n, sched, u, "entries")
             item["DN"] = self.direct(store_n, sched, u, ot)
         else:
             # no warm-up record: the normal-only store is the store itself (another insertion order adds nothing here)
             item["RN"], item["DN"] = item["R"], item["D"]
+        self.searches += sum(len(f.bodies) for f in self._fakes)
+        self._fakes = []
         return item
 
     def read_back_in_child(self, items):
@@ -744,13 +766,13 @@ def _short(item):
 
 def _validate(out, items, name):
     index = {it["id"]: it for it in items}
-    payload = [{k: v for k, v in it.items() if k not in ("u", "crash", "ot", "tele", "ho", "uni")} for it in items]
+    payload = [{k: v for k, v in it.items() if k not in ("u", "crash", "ot", "tele", "ho", "uni", "es")} for it in items]
     verdicts = tracecheck.validate("Stats", "TraceStats", "TraceStats.cfg", payload, name=name, chunk=4000, timeout=1500)
     out.traces_validated += verdicts.accepted(len(items))
     for tid, fails in verdicts.l1.items():
         it = index[tid]
         clauses = sorted({c for _, cl in fails for c in cl})
-        case = {k: it[k] for k in ("kind", "sched", "S", "u", "ot", "tele", "ho", "uni", "doc") if k in it}
+        case = {k: it[k] for k in ("kind", "sched", "S", "u", "ot", "tele", "ho", "uni", "es", "doc") if k in it}
         out.violations.append(Violation(",".join(clauses), case, signature=_sig(it, clauses), detail=_short(it)))
     out.violations.sort(key=lambda v: (len(v.case.get("S", {}).get("recs", [])) + v.case.get("S", {}).get("ap", NOAP)[2], repr(v.case)))
     for tid in verdicts.l2:
@@ -801,6 +823,11 @@ def run(ctx, out):
         "every percentile percentiles_for_sample_size (the implementation's own function, asked for the count get_stats reports) "
         "chooses must be reported under a key of its own (L1 PctKeysFaithful: encode_float_key loses / merges nothing; judged on the "
         "stored key set, also after the race.json round trip through RoundTrip); which percentiles are chosen for which n stays L2",
+        "query leg: a part of the cases is also calculated on a real EsMetricsStore (datastore.type = elasticsearch is what race control "
+        "would use) whose client is a fake that evaluates every search against the case's documents (term filters select, stats / "
+        "percentiles / terms aggregations are computed exactly, percentiles by the linear-interpolation definition); real Elasticsearch "
+        "percentiles are approximate (t-digest) - that approximation, the write side (bulk indexing, covered by the extra EsStore) and "
+        "EsRaceStore / EsResultsStore are not part of C08's evidence; progressions of more than 1000 records stay in-memory only",
         "JSON / the file system are trusted (real json module, real files under a scratch root.dir)",
     ]
     rnd = random.Random(ctx.seed + 8)
@@ -825,6 +852,8 @@ def run(ctx, out):
     inputs.sort(key=repr)
     base2 = [["t1", True], ["t2", False]]  # as Sched2 of MC_Stats.tla; the operation names vary from case to case
     items = []
+    es_items = []
+    es_mod = 7 if ctx.quick else 40
     kinds = {"store": 0, "ap": 0, "doc": 0}
     for n, inp in enumerate(inputs):
         if inp["kind"] == "store":
@@ -838,6 +867,14 @@ def run(ctx, out):
                 it["uni"] = n
             impl.run_store(it, rnd)
             kinds["ap" if S["ap"][2] > 0 else "store"] += 1
+            if n % es_mod == 2 and S["ap"][2] <= 1000:
+                # query leg: the same case with the Elasticsearch metrics store in front of the same documents
+                eit = {"id": "e%d" % n, "kind": "store", "sched": sched2, "S": {"recs": [list(r) for r in S["recs"]], "ap": list(S["ap"])}, "u": it["u"], "ho": it["ho"], "es": True}
+                if "tele" in it:
+                    eit["tele"] = it["tele"]
+                impl.run_store(eit, rnd)
+                es_items.append(eit)
+                out.add_case(("es-store", sched2, sorted(S["recs"], key=repr), S["ap"]), nontrivial=any(_n_normal(S, m, "t1") for m in TASK_METRICS))
             out.add_case(("store", sched2, sorted(S["recs"], key=repr), S["ap"]), nontrivial=any(_n_normal(S, m, "t1") for m in TASK_METRICS))
         else:
             doc = inp["doc"]
@@ -864,11 +901,19 @@ def run(ctx, out):
         it["ho"] = (1, 0, 2, 1)[n % 4]
         if n % 50 == 7:
             it["uni"] = 1000000 + n
+        if n % (4 if ctx.quick else 10) == 1 and it["S"]["ap"][2] <= 1000:
+            it["es"] = True
         impl.run_store(it, rnd)
         rnd_items.append(it)
         out.add_case(("store", it["sched"], sorted(it["S"]["recs"], key=repr), it["S"]["ap"]), nontrivial=any(_n_normal(it["S"], m, t) for m in TASK_METRICS for t, *_ in it["sched"]))
     out.note("random stores executed: %d" % len(rnd_items))
     out.sample({"random": {"sched": rnd_items[1]["sched"], "n_records": len(rnd_items[1]["S"]["recs"]), "ap": rnd_items[1]["S"]["ap"], "results_task1": rnd_items[1]["R"]["ops"][0]}})
+    n_es = len(es_items) + sum(1 for it in rnd_items if it.get("es"))
+    out.extra["es_query_leg"] = "%d cases calculated with the real GlobalStatsCalculator on a real EsMetricsStore; its %d search requests were evaluated against the case's documents (term filters, stats / percentiles / terms aggregations, sort, size) by harness/esquery.py" % (n_es, impl.searches)
+    out.note(out.extra["es_query_leg"])
+    if n_es < 100 or impl.searches < 1000:
+        raise tlc.MachineryError("query leg too small: %d cases, %d searches" % (n_es, impl.searches))
+    items = items + es_items
     # ---- races with non-ASCII names / tags are read back by a child interpreter whose preferred encoding is not UTF-8
     enc = impl.read_back_in_child(items + rnd_items)
     n_uni = sum(1 for it in items + rnd_items if it.get("uni") is not None)
